@@ -34,6 +34,12 @@ def _foreign(rng_seed, kind, D=None):
             except Exception:
                 pass
         return
+    if kind == "pyrandom":
+        # the standard library's global generator (not reset by random_seed): reseeded and advanced by other code of the process
+        random.seed(r.randint(0, 10 ** 6))
+        for _ in range(r.randint(1, 20)):
+            random.random(); random.gauss(0.0, 1.0)
+        return
     if kind == "draws":
         np.random.seed(r.randint(0, 10 ** 6))
         for _ in range(r.randint(1, 5)):
@@ -87,8 +93,24 @@ def _job(args):
             _foreign(hseed * 100 + 50 + i, k, spec["D"])
         np.random.seed, np.random.uniform, np.random.rand = w("seed", o_seed), w("uniform", o_uniform), w("rand", o_rand)
         np.random.randn, np.random.normal, np.random.randint, np.random.permutation = w("randn", o_randn), w("normal", o_normal), w("randint", o_randint), w("permutation", o_perm)
+        # the GP fitting oracle fails (LinAlgError, as for a nearly singular training set) at scheduled invocations - the SAME schedule in both
+        # runs of a pair - so that the retry paths (restart from a draw from the hyper-parameter priors) are taken
+        faults = set(spec.get("gp_fit_faults") or [])
+        if faults:
+            import gpyreg as gpr
+            o_fit, cnt = gpr.GP.fit, [0]
+            def f_fit(self, *a, **k):
+                i = cnt[0]; cnt[0] += 1
+                if i in faults:
+                    raise np.linalg.LinAlgError("injected: matrix not positive definite")
+                return o_fit(self, *a, **k)
+            gpr.GP.fit = f_fit
         try:
-            res = b.optimize()
+            try:
+                res = b.optimize()
+            finally:
+                if faults:
+                    gpr.GP.fit = o_fit
             out = {"x": [float(v) for v in np.ravel(res["x"])], "fval": float(res["fval"]), "fsd": float(res["fsd"]), "func_count": int(res["func_count"]),
                    "message": res["message"], "x0": [float(v) for v in np.ravel(res["x0"])]}
         except Exception as ex:
@@ -156,14 +178,26 @@ def run(ctx):
         specs.append(sp)
     for sp, sd in zip(specs, [0, 2 ** 31 - 1, 1]):       # boundary seed values: 0 is a valid seed
         sp["seed"] = sd
+    # runs in which GP fits fail and are retried (every 2nd / 3rd invocation, or single failures)
+    n_plain = len(specs)
+    for i in range(3 if ctx.quick else 12):
+        sp = gen.make_spec(rng, D=rng.choice([1, 2, 3]), geom=rng.choice(["box", "logbox", "tight"]), mode=rng.choice(["det", "det", "decl"]), cons=None, target=rng.choice(["quad", "abs"]))
+        # gp_train_n_init(_final) = 0: the hyper-parameter optimisation starts from the supplied point only (no random design), so the restart
+        # point after a failed fit decides the fitted hyper-parameters
+        sp["options"] = {"n_search": 32, "max_fun_evals": (sp["D"] + 30) if sp["mode"] == "det" else 60, "noise_final_samples": 0,
+                         "gp_train_n_init": 0, "gp_train_n_init_final": 0}
+        sp["gp_fit_faults"] = [list(range(0, 200, 2)), list(range(1, 200, 3)), [0, 1, 2, 5, 6, 9]][i % 3]
+        specs.append(sp)
     jobs, meta = [], []
     for si, sp in enumerate(specs):
         jobs.append((sp, [], [], 0)); meta.append((si, "fresh", [], []))
         for v in range(2 if ctx.quick else 4):
-            pre = [rng.choice(["draws", "run", "construct", "sibling"]) for _ in range(rng.randint(0, 3))]
-            mid = [rng.choice(["draws", "run", "construct", "sibling"]) for _ in range(rng.randint(0, 2))]
+            pre = [rng.choice(["draws", "run", "construct", "sibling", "pyrandom"]) for _ in range(rng.randint(0, 3))]
+            mid = [rng.choice(["draws", "run", "construct", "sibling", "pyrandom"]) for _ in range(rng.randint(0, 2))]
             if v == 0:
                 pre = ["sibling"] + pre[:1]
+            if si >= n_plain and v == 1:
+                pre = ["pyrandom"] + pre[:1]
             if not pre and not mid:
                 pre = ["draws"]
             jobs.append((sp, pre, mid, si * 10 + v + 1)); meta.append((si, "history", pre, mid))
@@ -200,7 +234,7 @@ def run(ctx):
             rep.violation("same_result", "bads.py:random seeding", f"result differs from the fresh-process run: {r['out']} vs {b['out']}; {tag}", case)
     rep.coverage = {
         "evaluations": stats["pairs"] + nx, "distinct_nontrivial": stats["pairs"] + nx, "cross_process_pairs": nx,
-        "rule": "one evaluation = one history pair: the same problem/options/seed run in a fresh process and after a generated foreign history (raw np.random consumption, other BADS constructions and runs with other D/options, "
+        "rule": "one evaluation = one history pair: the same problem/options/seed run in a fresh process and after a generated foreign history (raw np.random consumption, use of the standard library's global generator, other BADS constructions and runs with other D/options, "
                 "before the construction and between construction and run; sibling instances of the same dimension with other option values), plus pairs of SEPARATE interpreter processes "
                 "with different hash randomisation (PYTHONHASHSEED), compared bit for bit (every evaluated point, x, fval, fsd, func_count, message, x0); plus the seeding discipline (first generator use in __init__ and optimize() is seed(s))",
         "samples": [{"spec": specs[0], "pre": meta[1][2], "mid": meta[1][3]}], "stats": stats, "traces_validated_against_impl": stats["pairs"],
